@@ -14,6 +14,8 @@ use tokio::net::TcpStream;
 pub enum Proxy {
     Http(Address),
     Https(Address),
+    /// CONNECT: target and length of the request (request line and headers)
+    Connect(Address, usize),
     Socks5,
     Unknown,
     Error(String),
@@ -24,9 +26,11 @@ pub async fn get_request_addr(stream: &mut TcpStream) -> anyhow::Result<Address>
         let next = recognize(stream).await?;
         match next {
             Proxy::Http(address) => representable(address),
-            Proxy::Https(address) => {
+            Proxy::Https(_) => bail!("CONNECT request of unknown length"),
+            Proxy::Connect(address, head_len) => {
                 let address = representable(address)?;
-                let _ = stream.read(&mut [0; 1024]).await?;
+                // consume exactly the CONNECT request; what follows belongs to the tunnel
+                stream.read_exact(&mut vec![0; head_len]).await?;
                 stream.write_all(b"HTTP/1.1 200 Connection established\r\n\r\n").await?;
                 Ok(address)
             }
@@ -60,18 +64,37 @@ async fn recognize(stream: &mut TcpStream) -> Result<Proxy, anyhow::Error> {
     if matches!(version, SocksVersion::Socks5) {
         Ok(Proxy::Socks5)
     } else {
-        let mut buf = [0; 1024];
-        let len = stream.peek(&mut buf).await?;
-        let mut headers = [];
-        let mut req = httparse::Request::new(&mut headers);
-        match (req.parse(&buf[..len]), req.path, req.method) {
-            (_, Some(path), Some(method)) => Ok(recognize_http(method, path)?),
-            (_, None, Some(_)) => {
-                stream.write_all(b"HTTP/1.1 414 URI Too Long\r\n\r\n").await?;
-                stream.shutdown().await?;
-                Ok(Proxy::Error("URI too long".to_owned()))
+        // look at the request without consuming it (a plain request is forwarded untouched), waiting until
+        // enough of it has arrived: the request line, and for CONNECT the whole head
+        let mut buf = vec![0; 16 * 1024];
+        loop {
+            let len = stream.peek(&mut buf).await?;
+            if len == 0 {
+                return Ok(Proxy::Unknown);
             }
-            _ => Ok(Proxy::Unknown),
+            let mut headers = [httparse::EMPTY_HEADER; 128];
+            let mut req = httparse::Request::new(&mut headers);
+            let status = req.parse(&buf[..len]);
+            match (status, req.path, req.method) {
+                (Ok(httparse::Status::Complete(head_len)), Some(path), Some(method)) => {
+                    return Ok(match recognize_http(method, path)? {
+                        Proxy::Https(address) => Proxy::Connect(address, head_len),
+                        other => other,
+                    });
+                }
+                // the request line is all a plain request needs; CONNECT goes on until its head is complete
+                (Ok(httparse::Status::Partial), Some(path), Some(method)) if method != "CONNECT" && req.version.is_some() => return recognize_http(method, path),
+                (Ok(httparse::Status::Partial), _, _) if len < buf.len() => {
+                    // peek does not wait for *more* than what is buffered: poll (get_request_addr bounds the wait)
+                    tokio::time::sleep(Duration::from_millis(5)).await;
+                }
+                (Ok(httparse::Status::Partial), _, _) => {
+                    stream.write_all(b"HTTP/1.1 431 Request Header Fields Too Large\r\n\r\n").await?;
+                    stream.shutdown().await?;
+                    return Ok(Proxy::Error("request head too large".to_owned()));
+                }
+                _ => return Ok(Proxy::Unknown),
+            }
         }
     }
 }
